@@ -183,6 +183,12 @@ class Interp:
             r = hook(self)
             if r is not None:
                 return r
+        bnd = getattr(v, 'bounds', None)
+        if bnd is not None:
+            if bnd[0] > 0:
+                return True
+            if bnd[1] == 0:
+                return False
         key = ('truth', self.vkey(v))
         return self.decide(key, f'truth({vrepr(v)[:40]})', node)
 
@@ -427,6 +433,14 @@ class Interp:
                 if v.format_spec is not None:
                     sp = self.ev(v.format_spec, fr)
                     spec = sp.v if isinstance(sp, K) and isinstance(sp.v, str) else False
+                if isinstance(x, Inst) and x.cls is not None:
+                    # formatting an object runs its __format__ / __str__ / __repr__ (eagerly, when the f-string is evaluated)
+                    order = ('__repr__',) if v.conversion == 114 else ('__str__', '__repr__')
+                    for dn in order:
+                        c, m = self.prog.find_method(x.cls, dn)
+                        if m is not None:
+                            x = self.invoke(FuncRef(m, c.module, c), [x], {})
+                            break
                 if isinstance(x, K) and spec is not False and not callable(x.v):
                     val = x.v
                     if v.conversion == 114:
@@ -692,6 +706,8 @@ class Interp:
                 if isinstance(other, Term) and other.op in ('hex', 'decode', 'encode', 'cat', 'sha256', 'sha512', 'to_bytes', 'from_bytes', 'fstr', 'tobytes',
                                                             'crc', 'bslice', 'fromhex', 'reversed_bytes', 'int', 'strfmt', 'join'):
                     return K(t is ast.IsNot)        # results of str/bytes/int operations are never None
+                if isinstance(other, Term) and (other.op.startswith('ext:') or other.op.startswith('.') or other.op.startswith('builtin:')):
+                    return K(t is ast.IsNot)        # opaque results of library calls / methods of library values: a value, not None
                 return Cond(('isnone', repr(self.vkey(other))), t is ast.Is, f'{vrepr(other)[:40]} is None')
             if self.vkey(a) == self.vkey(b):
                 return K(t is ast.Is)
